@@ -229,9 +229,11 @@ def c07_range_override_stale_member(w, v):
     function is evaluated first and wins, so the cell - and whoever reads it
     directly - keeps the old value."""
     parts = v['sig'].split(':')
-    if parts[0] != 'reference':
+    if parts[0] not in ('reference', 'restricted-outputs-differ'):
         return False
     if 'stale-member' in parts:
+        if parts[0] == 'restricted-outputs-differ':
+            return bool(w.get('stale_member'))
         return bool(w.get('stale_member')) and w.get('observed') == w.get('own_value')
     if 'downstream-of-stale-member' in parts:
         return bool(w.get('downstream_of_stale_member'))
@@ -244,7 +246,7 @@ def c07_range_override_unpopulated_member(w, v):
     in the workbook (no node of its own) is not seen by other formulas that
     read that cell directly or through an overlapping range."""
     parts = v['sig'].split(':')
-    return parts[0] == 'reference' and \
+    return parts[0] in ('reference', 'restricted-outputs-differ') and \
         'downstream-of-unpopulated-member' in parts and \
         bool(w.get('downstream_of_unpopulated_member'))
 
@@ -465,3 +467,37 @@ def _all_rects(desc):
         if 'f' in cell:
             walk(cell['f'])
     return sorted(out)
+
+
+@matcher('c08_range_input_unpopulated_member')
+def c08_range_input_unpopulated_member(w, v):
+    """A value supplied through a range (or name) input for a cell that is
+    unpopulated in the workbook reaches other formulas that read that cell
+    directly or through an overlapping range only by way of the shared
+    solution object: the compiled function and calculate() then disagree
+    (same mechanism as C07-range-override-unpopulated-member)."""
+    if not v['sig'].startswith(('differs:', 'reference-differs:')):
+        return False
+    case = w.get('case') or {}
+    desc = case.get('desc')
+    if not desc or 'I' not in case:
+        return False
+    from . import wbrun
+    from .ref import workbook as rw
+    ev = rw.Evaluator(desc)
+    blanks = set()
+    for kind, key in case['I']:
+        if kind == 'range':
+            b, s, c1, r1, c2, r2 = key
+        elif kind == 'name':
+            node = desc['names'].get(key[0])
+            if not node or node[0] != 'rng':
+                continue
+            b, s, c1, r1, c2, r2 = node[1:7]
+        else:
+            continue
+        blanks |= {(b, s, c, r) for c in range(c1, c2 + 1) for r in range(r1, r2 + 1)
+                   if not ev.populated((b, s, c, r))}
+    if not blanks:
+        return False
+    return w.get('cell') in {gw_key(desc, k) for k in wbrun.downstream(desc, blanks)}
